@@ -115,7 +115,14 @@ func VerifC01ContainerBinop() {
 	op := vsym.Param("op")
 	inv := vsym.Param("inv") == 1
 	a, da := vGenContainer(vsym.Param("ka"), vsym.Param("sa"))
-	b, db := vGenContainer(vsym.Param("kb"), vsym.Param("sb"))
+	var b container
+	var db *vDesc
+	same := vsym.Param("kb") < 0 // kb = -1: the operation is applied to one and the same container object
+	if same {
+		b, db = a, da
+	} else {
+		b, db = vGenContainer(vsym.Param("kb"), vsym.Param("sb"))
+	}
 	snapA, snapB := vSnapshot(a), vSnapshot(b)
 	sp := vSpec{
 		has: func(x uint16) bool { return vBoolOp(op, da.has(x), db.has(x)) },
@@ -188,7 +195,9 @@ func VerifC01ContainerBinop() {
 	if !inPlace {
 		vUnchanged(a, snapA, "lhs-unchanged")
 	}
-	vUnchanged(b, snapB, "rhs-unchanged")
+	if !(same && inPlace) {
+		vUnchanged(b, snapB, "rhs-unchanged")
+	}
 	vsym.Reach("end")
 }
 
